@@ -48,6 +48,14 @@ P = {
     technique="model-based differential monitor: generated handler programs run under the real ServerProcessor/Response in memory, wire bytes decoded by net/http.ReadResponse and compared with a model of the program; failing programs are minimised; guard allocator active",
     text="Handler programs over header settings, WriteHeader (registered and unregistered codes), Write/WriteString/ReadFrom (plain reader, LimitedReader over *os.File, bare *os.File), Flush and late trailer values, for HTTP/1.0 and 1.1, keep-alive and close, with totals placed at 65536-h-{2,1,0}, 65536+-1, 2x65536+-1 and up to 300 KiB; the wire must decode to exactly one response equal to the model, with consistent framing, and every successful Write must return len(input).",
     note=TB + " net/http.ReadResponse is the trusted decoder; programs whose model is ill-defined (Content-Length != bytes written, 204/304 with body, header mutation after commit) are unasserted and counted."),
+ "C10": dict(level="exploration", ref="4/C10",
+    technique="end-to-end history monitor on real sockets: process-unique exchange ids and id-keyed body patterns (bytes of another exchange are recognised and attributed), per-connection request/response/handler logs with one logical clock, final-history detector (progress flat, no workload timer pending, idle CPU) for 'never answered / left open'; independent observers net/http and crypto/tls; nbhttp's own Client/ClientConn driven with callback counters",
+    text="Started nbhttp engines in all 18 cells IOMod x plain/TLS x epoll mode serve 1-64 concurrent connections of a raw pipelining client (HTTP/1.0 and 1.1, close / keep-alive spellings, bodies 0 B - 1 MiB, pipelining depth 1-16, mid-stream closes), net/http.Transport and nbhttp's own Client.Do / ClientConn.Do; response i must carry request i's id and exactly its body, one response per request, EOF and nothing else after a close-dictating exchange, no close where none was dictated, no byte of another exchange anywhere, and every client callback exactly once with its own response or an error; close-churn cases make both sides end connections at once so that descriptor numbers are reused immediately. Exploration: schedules, sizes and histories are sampled.",
+    note=TB + " One known finding is listed in known_findings.json (responses of 1 MiB and more to a close-dictating request are cut at the send queue when the connection is closed); everything else is asserted for those exchanges too."),
+ "C14": dict(level="exploration", ref="4/C14",
+    technique="end-to-end history monitor on real sockets: per-connection callback log with inside-counters and one logical clock (open-before-message, no overlap, consecutive sequence numbers, close exactly once and last), wire-side reassembly of concurrently written messages by an independent RFC 6455 codec (whole, non-interleaved frame sequences, none lost or duplicated, end marker last); seeded delay points; race detector with //go:norace stripped (thorough, function-set filter)",
+    text="Servers on every upgrade path (poller-driven, blocking with parser, blocking with own read loop, transferred to the poller from IOModBlocking and from net/http, mixed) x epoll mode x direct / queued writes (and TLS for engine-served paths) get 1-5 raw clients sending numbered, partly fragmented messages with pings in between under random TCP segmentation while 2-32 goroutines per connection call WriteMessage concurrently with messages larger than the frame limit; connections end by close frame, TCP close, Close from inside/outside a callback, the application's CloseAndClean, or Engine.Stop. Exploration: schedules are sampled.",
+    note=TB + " Connections ended by Engine.Stop are outside the quantifier (only a duplicated close callback alarms); compression, OnDataFrame and the Dialer side are not exercised here (C12/C13/C15 cover the codec in memory)."),
  "C11": dict(level="exploration", ref="4/C11",
     technique="sanitizer-style guard allocator (internal/guardalloc: shadow state per never-recycled region, poison on free, quarantine sweeps, liveness checks on everything handed to the harness; thorough adds an mmap/mprotect(PROT_NONE) fault mode) installed as DefaultMemPool and BodyAllocator under the C09 programs, HTTP request workloads and in-memory WebSocket workloads",
     text="Every Malloc/Append/Realloc/Free the HTTP and WebSocket layers perform goes through an allocator that never recycles memory and knows each region's state: double free, append/realloc after free, write after free (poison sweep), freed buffers handed to the connection or to handlers, and - in fault mode - any read or write after free as a hardware fault. Leaks are counted, never alarmed.",
